@@ -401,6 +401,7 @@ func (s *Sim) grantable(t *Task) bool {
 }
 
 // grant updates the models for the request being granted and fills t.resp.
+//
 //go:norace
 func (s *Sim) grant(t *Task) string {
 	r := &t.req
